@@ -37,6 +37,11 @@ CURATED = [
     ("struct", (("sig", ("const", "89504e47")), ("len", ("rebuildlen", common.I16b, "body")), ("body", ("bytesctx", "len", None)), ("crc", common.I32))),
     ("struct", (("a", common.I8), ("rest", GB))), ("seq", (common.I8, ("optional", ("constv", 7, common.I8)))),
     ("select", (("struct", (("tag", ("constv", 1, common.I8)), ("v", common.I16b))), ("struct", (("tag", ("constv", 2, common.I8)), ("w", common.VAR))))),
+    ("pstring", 5, "utf_16_le", 1), ("pstring", 13, "utf_16_le", 2), ("pstring", 7, "utf_32_be", 1), ("pstring", 3, "utf_16_le", 1),
+    ("struct", (("s", ("pstring", 5, "utf_16_le", 2)), ("t", common.I8))),
+    ("flagsenum", common.I8, (("read", 1), ("write", 2), ("readwrite", 3), ("x", 16))),
+    ("struct", (("s", ("select", (("struct", (("a", common.I32), ("b", common.I16b), ("c", common.I8))), ("struct", (("a", common.I8),))))), ("rest", ("greedybytes", 1)))),
+    ("prefixed", common.I8, ("select", (("struct", (("a", common.I32), ("b", common.I16b))), ("struct", (("a", common.I8),)))), False),
     ("repeatuntil", 0, common.I8, 3), ("struct", (("x", common.I8), ("y", ("computed", "x")), ("z", common.I8))),
     ("aligned", 4, ("prefixed", common.I8, ("greedybytes", 2), False), "00"), common.BITS16,
     ("struct", (("hdr", common.BITS16), ("items", ("arrayctx", "hdr_n", None, common.I8)))) if False else ("array", 2, common.BITS_S),
@@ -188,6 +193,32 @@ def terminator_free(ctx, s, v):
         return terminator_free(ctx, s[2], v)
 
 
+def consistent_flags(ctx, s, v):
+    """a dict of flags is in the value domain when every multi-bit flag is set exactly if all of its bits are set
+    by the single-bit flags (an inconsistent dict cannot round-trip by design)"""
+    s = T(s)
+    if s[0] == "flagsenum" and isinstance(v, dict):
+        table = dict((l, x) for l, x in s[2])
+        singles = {l: x for l, x in table.items() if x & (x - 1) == 0}
+        for l, x in table.items():
+            if x & (x - 1):
+                parts = [sl for sl, sx in singles.items() if sx & x]
+                if sum(singles[q] for q in parts) == x:
+                    allset = api.and_terms([v[q] if isinstance(v[q], bool) else v[q].t for q in parts])
+                    this = v[l] if isinstance(v[l], bool) else v[l].t
+                    if isinstance(allset, bool) and isinstance(this, bool):
+                        ctx.assume(allset == this)
+                    else:
+                        import z3
+                        a = allset if not isinstance(allset, bool) else z3.BoolVal(allset)
+                        b = this if not isinstance(this, bool) else z3.BoolVal(this)
+                        ctx.assume(a == b)
+    elif s[0] == "struct" and isinstance(v, dict):
+        for n, x in s[1]:
+            if n in v:
+                consistent_flags(ctx, x, v[n])
+
+
 def payload_assumptions(ctx, s, v):
     """exclude, by assumption, values that are documented not to round-trip"""
     s = T(s)
@@ -207,6 +238,7 @@ def harness(ctx, C, p):
     finally:
         common.STRICT[0] = False
     terminator_free(ctx, spec, v)
+    consistent_flags(ctx, spec, v)
     d = mk(C, src(spec))
     ctx.observe("value", v)
     rb = api.outcome(d.build, v)
